@@ -16,7 +16,7 @@ def cases(tier):
                        dict(props=PROPS, t=t, who=who)))
     from harness import C11
     cs += C11.observer_cases(PROPS, tier)
-    n = 8 if tier == 'thorough' else 4
+    n = 6 if tier == 'thorough' else 4
     for d in range(1, 5):
         cs.append((play.case_bmc, f'H2 BMC first {n} plays, declarer {d}', dict(props=PROPS, n=n, declarer=d)))
     return cs
@@ -25,7 +25,7 @@ def cases(tier):
 META = dict(
     level='model_checking',
     bounds=lambda tier: {'H1': 'any trick 1..13, 0..3 cards on the table, any contract (35 bids x 4 declarers), any disjoint hands (52 Booleans per set), any card and seat offered',
-                         'H2': f'first {8 if tier == "thorough" else 4} plays from the real constructor, symbolic deal, per declarer',
+                         'H2': f'first {6 if tier == "thorough" else 4} plays from the real constructor, symbolic deal, per declarer',
                          'replay': 'counterexamples to induction are searched at trick 1 first and turned into (deal, plays); deeper-only ones are reported inconclusive'},
     stubs=['logger calls skipped'],
     assumptions=play.COMMON_ASSUMPTIONS,
